@@ -60,6 +60,13 @@ def _base_configs():
     # age to a few per cent of precipitate, then heat mildly above the solvus (every class dissolves, the planar interface stays stable): the
     # dissolution re-mesh of the size classes must not create particles
     c.append(dict(tag="age-then-mild-heat-dissolving", phases=[ph], D=1e-15, se=3e-3, retemp=[1000, 1008], calls=[(0.3, 0.05), (0.02, 0.02)], iter="euler", cap=800))
+    # a plate whose aspect ratio grows with its size (given by the user) and a shape dependent (ellipsoidal) strain energy: the Gibbs-Thomson
+    # energy of every size class carries the strain energy of a particle of THAT size
+    c.append(dict(tag="plate-ar-function-shape-strain", phases=[dict(ph, shape=("plate", ("linear", 1.0, 4.0)), strainShape=((6.67e-3, 6.67e-3, 2.86e-2), 57.1e9, 0.33))],
+                  D=1e-16, calls=[(20.0, 0.02)], iter="euler", cap=300))
+    # two phases of different precipitate composition on a small grid: the SECOND phase outgrows its grid (classes appended for it)
+    c.append(dict(tag="two-phases-second-outgrows-its-grid", phases=[ph, dict(name="gamma", gamma=0.045, xe0=0.004, K=1.2e5, xb=0.5, VmB=1.2e-5)], D=1e-15,
+                  pbm=(1e-10, 6e-10, 20, 10, 200, True), calls=[(0.2, 0.02), (0.2, 0.02)], iter="euler", cap=600))
     # a minimum step fraction that is not negligible: the last step of a call may be shorter than it, the run still ends exactly on time
     c.append(dict(tag="min-step-fraction-0.1", phases=[ph], D=1e-16, minfrac=0.1, calls=[(50.0, 0.5)], iter="rk4"))
     c.append(dict(tag="min-step-fraction-0.3-euler", phases=[ph], D=1e-16, minfrac=0.3, calls=[(50.0, 0.5)], iter="euler"))
